@@ -156,10 +156,9 @@ class BitString(Type):
         super(BitString, self).__init__(name, 'BIT STRING')
 
     def encode(self, data, _separator, _indent):
-        encoded = int(binascii.hexlify(data[0]), 16)
-        encoded |= (0x80 << (8 * len(data[0])))
+        bits = ''.join('{:08b}'.format(byte) for byte in bytearray(data[0]))
 
-        return "'{}'B".format(bin(encoded)[10:10 + data[1]]).upper()
+        return "'{}'B".format(bits[:data[1]])
 
 
 class OctetString(Type):
